@@ -243,8 +243,10 @@ def _gen_op(rng, wv, allow=None, new_x_container=True):
                 return {"op": op, "args": [lo, lo + float(rng.choice([1.0, 10.0]))], "kw": {}}
         elif op == "truncate_by_value":
             # bounds strictly inside the common range, wide enough to keep >= 2 samples of both series
+            if n < 3 or nr < 3:
+                continue
             lo, hi = max(float(x[0]), float(rx[0])), min(float(x[-1]), float(rx[-1]))
-            if n >= 3 and nr >= 3 and hi > lo:
+            if hi > lo:
                 a, b = sorted(rng.uniform(0.0, 1.0, 2))
                 if b - a < 0.2:
                     continue
